@@ -197,6 +197,12 @@ class Collocator:
             filesets[1], start=start, end=end, max_interval=max_interval,
         ))
 
+        if not matches:
+            # No files of the two filesets are close enough in time, hence
+            # there cannot be any collocations:
+            self._info("Found no matching files")
+            return
+
         if processes is None:
             processes = 1
 
